@@ -151,7 +151,9 @@ def k1(ctx, kr):
             for b1 in range(K4 + 1): jobs.append(('alias', K4, {0: b0, 1: b1}))
         cells = [(i, j) for i in range(K4) for j in range(K4)][:8]
         # self-loops are decided on 3 nodes already: nodes 2 and 3 carry none here (2^14 graphs instead of 2^16, which took 73 minutes)
-        for bits in range(256): jobs.append(('fb', K4, dict({c: bool(bits >> n & 1) for n, c in enumerate(cells)}, **{(2, 2): False, (3, 3): False})))
+        for bits in range(256): 
+            fx = {c: bool(bits >> n & 1) for n, c in enumerate(cells)}; fx[(2, 2)] = False; fx[(3, 3)] = False
+            jobs.append(('fb', K4, fx))
     kr.bounds = ('every directed graph on 3 nodes (self-loops included; one symbolic bit per potential edge, 512 graphs) realised as function-block instance graph and as structure-element graph; '
                  'every functional graph (out-degree <= 1) on 3 nodes realised as type-alias graph, with every subset of the aliases declared with a default value; every digraph on 2 nodes (fb and struct) with every reference optionally re-spelled in upper case' + ('; thorough: 4 nodes (16384 fb graphs without self-loops on two of the nodes, 625 alias graphs)' if ctx.tier == 'thorough' else ''))
     for part in par_map(_k1_job, jobs): merge_part(kr, part)
